@@ -59,6 +59,19 @@ Lemma b_sam_tag_first : forall n, gen_sam_tag_first n = m_sam_tag_first n. Proof
 Lemma b_sam_tag_step : forall n, gen_sam_tag_step n = n. Proof. bridge. Qed.
 Lemma b_sam_tag_empty : forall l, gen_sam_tag_empty l = m_sam_tag_empty l. Proof. bridge. Qed.
 
+(* SAM extractor (since /repo 6bbd290): entry ends before the carriage-return adjustment; the tags stop at the line break or
+   at the carriage return before it *)
+Lemma b_sam_entry_end : forall e, gen_sam_entry_end e = e + 1. Proof. reflexivity. Qed.
+Lemma b_sam_entry_ends_before_cr : gen_sam_entry_ends_before_cr = true. Proof. reflexivity. Qed.
+Definition gen_extra_end (data : list Z) (e : Z) : Z :=
+  let e0 := gen_sam_extra_end0 e in
+  e0 - (if nthZ data (gen_sam_extra_probe e0) =? gen_sam_extra_cr_char then 1 else 0).
+Lemma b_sam_extra_end : forall data e, gen_extra_end data e = extra_end data e. Proof. reflexivity. Qed.
+Definition gen_sam_extra (x : ext) : list (list Z) :=
+  let starts := zip_with (fun s l => gen_sam_extra_start (last0 s) (last0 l)) (x_fs x) (x_fl x) in
+  extract x starts (zip_with (fun e st => gen_sam_extra_len (gen_extra_end (x_data x) e) st) (x_ee x) starts).
+Lemma b_sam_extra : forall x, gen_sam_extra x = sam_extra x. Proof. reflexivity. Qed.
+
 (* ---- the operations of the model, re-assembled from the regenerated formulas, ARE the model's operations ---- *)
 Definition gen_make_contiguous (x : ext) : ext :=
   let lens := zip_with (fun e s => gen_mc_len s e) (x_ee x) (x_es x) in
